@@ -31,7 +31,8 @@ func VH_C09_DNN_text() {
 }
 
 func VH_C09_DNN_set() {
-	shapes := [][]int{{1}, {3}, {1, 1}, {8, 7}, {62, 36}, {30, 30, 30}}
+	// the last shapes are multi-label names whose encoding is exactly 100, 99 and 98 octets (the maximum SetDNN accepts and just below)
+	shapes := [][]int{{1}, {3}, {1, 1}, {8, 7}, {62, 36}, {30, 30, 30}, {32, 32, 33}, {32, 32, 32}, {19, 19, 19, 19, 19}, {19, 19, 19, 19, 18}, {19, 19, 19, 18, 18}, {24, 24, 24, 24}, {10, 10, 10, 10, 10, 10, 10, 10, 11}, {1, 1, 1, 62, 30}}
 	labels := shapes[vrt.Choose("shape", 0, len(shapes)-1)]
 	text := ""
 	var enc []byte
